@@ -716,8 +716,12 @@ namespace mustache {
 
     Entity EntityManager::create(Archetype& archetype) {
         if (!isLocked()) {
+            // the archetype may predate a dependency declaration: the entity goes where a lookup of its component
+            // set leads now (as the deferred path below does at unlock)
+            Archetype& target = dependencies_.empty() ? archetype
+                                                      : getArchetype(archetype.componentMask(), archetype.sharedComponentInfo());
             const Entity entity = createWithOutInit();
-            archetype.insert(entity);
+            target.insert(entity);
             return entity;
         }
         return createLocked(archetype.componentMask(), archetype.sharedComponentInfo());
